@@ -11,8 +11,12 @@ def gtUnmarshal (m : Bytes) : Option GFp12 :=
   some ⟨⟨⟨c 0, c 1⟩, ⟨c 2, c 3⟩, ⟨c 4, c 5⟩⟩, ⟨⟨c 6, c 7⟩, ⟨c 8, c 9⟩, ⟨c 10, c 11⟩⟩⟩
 
 def showOpt (f : α → Bytes) : Option α → String
-  | none => "reject"
-  | some c => "ok " ++ toHex (f c)
+  | none => "reject mut=-"
+  | some c => "ok " ++ toHex (f c) ++ " mut=-"
+
+/-- state of a receiver after `Marshal` (which calls `MakeAffine` unless the point is infinity) -/
+def aff1 (c : CurvePoint) : CurvePoint := if c.isInfinity then c else c.makeAffine
+def aff2 (c : TwistPoint) : TwistPoint := if c.isInfinity then c else c.makeAffine
 
 def h1 (c : CurvePoint) : String := toHex (g1Marshal c)
 def h2 (c : TwistPoint) : String := toHex (g2Marshal c)
@@ -20,6 +24,11 @@ def h2 (c : TwistPoint) : String := toHex (g2Marshal c)
 def showPair : PairRes → String
   | .undefined => "undefined"
   | .val e => s!"e={toHex (gtMarshal e)} one={if e.isOne then 1 else 0}"
+
+def showPairM (r : PairRes) : String :=
+  match r with
+  | .undefined => "undefined"
+  | _ => showPair r ++ " mut=-"
 
 def handle (line : String) : String :=
   let o := parseOp line
@@ -41,7 +50,7 @@ def handle (line : String) : String :=
       let rt := match g1Unmarshal (g1Marshal P), g1Unmarshal (g1Marshal Q) with
         | some P', some Q' => s!"rt={if g1Marshal P' == g1Marshal P then 1 else 0} s2={h1 (P'.add Q')}"
         | _, _ => "rt=0"
-      s!"p={h1 P} q={h1 Q} s={h1 (P.add Q)} c={h1 (Q.add P)} n={h1 N} m={h1 (g1Mul P k)} d={h1 (P.add P)} dd={if g1Marshal (P.add P) == g1Marshal (g1Mul P 2) then 1 else 0} z={h1 (P.add N)} {rt}"
+      s!"p={h1 P} q={h1 Q} s={h1 (P.add Q)} c={h1 (Q.add P)} n={h1 N} m={h1 (g1Mul P k)} d={h1 (P.add P)} dd={if g1Marshal (P.add P) == g1Marshal (g1Mul P 2) then 1 else 0} z={h1 (P.add N)} {rt} mut=-"
     | _, _, _ => "bad-op"
   | "g2" =>
     match o.int? "a", o.int? "b", o.int? "k" with
@@ -51,33 +60,67 @@ def handle (line : String) : String :=
       let rt := match g2Unmarshal (g2Marshal P), g2Unmarshal (g2Marshal Q) with
         | some P', some Q' => s!"rt={if g2Marshal P' == g2Marshal P then 1 else 0} s2={h2 (P'.add Q')}"
         | _, _ => "rt=0"
-      s!"p={h2 P} q={h2 Q} s={h2 (P.add Q)} c={h2 (Q.add P)} m={h2 (g2Mul P k)} d={h2 (P.add P)} dd={if g2Marshal (P.add P) == g2Marshal (g2Mul P 2) then 1 else 0} {rt}"
+      s!"p={h2 P} q={h2 Q} s={h2 (P.add Q)} c={h2 (Q.add P)} m={h2 (g2Mul P k)} d={h2 (P.add P)} dd={if g2Marshal (P.add P) == g2Marshal (g2Mul P 2) then 1 else 0} {rt} mut=-"
     | _, _, _ => "bad-op"
   | "g1m" =>
     match o.hex? "m", o.int? "k" with
     | some m, some k =>
       match g1Unmarshal m with
       | none => "reject"
-      | some P => s!"m={h1 (g1Mul P k)} d={h1 (P.add P)} g={h1 (P.add .gen)} n={h1 (P.add P.neg)}"
+      | some P => s!"m={h1 (g1Mul P k)} d={h1 (P.add P)} g={h1 (P.add .gen)} n={h1 (P.add P.neg)} mut=-"
     | _, _ => "bad-op"
   | "g2m" =>
     match o.hex? "m", o.int? "k" with
     | some m, some k =>
       match g2Unmarshal m with
       | none => "reject"
-      | some P => s!"m={h2 (g2Mul P k)} d={h2 (P.add P)} g={h2 (P.add .gen)}"
+      | some P => s!"m={h2 (g2Mul P k)} d={h2 (P.add P)} g={h2 (P.add .gen)} mut=-"
     | _, _ => "bad-op"
+  | "alias1" =>
+    match o.int? "a", o.int? "b", o.int? "k" with
+    | some a, some b, some k =>
+      let P := g1Mul .gen a
+      let Q := g1Mul .gen b
+      let seq := [h1 (g1Mul P k), h1 (P.add Q), h1 Q.neg, h1 ((aff1 Q.neg).add P), h1 (g1Mul .gen a)]
+      s!"s1={h1 (P.add Q)} s2={h1 (P.add Q)} m={h1 (g1Mul P k)} n={h1 P.neg} bm={h1 (g1Mul .gen k)} seq={",".intercalate seq} mut=-"
+    | _, _, _ => "bad-op"
+  | "dbl1" =>
+    match o.int? "a" with
+    | some a => let P := g1Mul .gen a; s!"ee={h1 (P.add P)} eq={h1 (P.add P)} pe={h1 (P.add P)}"
+    | none => "bad-op"
+  | "dbl2" =>
+    match o.int? "a" with
+    | some a => let P := g2Mul .gen a; s!"ee={h2 (P.add P)} eq={h2 (P.add P)} pe={h2 (P.add P)}"
+    | none => "bad-op"
+  | "alias2" =>
+    match o.int? "a", o.int? "b", o.int? "k" with
+    | some a, some b, some k =>
+      let P := g2Mul .gen a
+      let Q := g2Mul .gen b
+      let seq := [h2 (g2Mul P k), h2 (P.add Q), h2 ((aff2 (P.add Q)).add P), h2 (g2Mul .gen a)]
+      s!"s1={h2 (P.add Q)} s2={h2 (P.add Q)} m={h2 (g2Mul P k)} bm={h2 (g2Mul .gen k)} seq={",".intercalate seq} mut=-"
+    | _, _, _ => "bad-op"
+  | "aliast" =>
+    match o.hex? "e", o.hex? "f", o.int? "k" with
+    | some me, some mf, some k =>
+      match gtUnmarshal me, gtUnmarshal mf with
+      | some e, some f =>
+        let g (x : GFp12) := toHex (gtMarshal x)
+        let seq := [g (gtExp e k), g (e.mul f), g f.invert, g (f.invert.minimal.mul e)]
+        s!"s1={g (e.mul f)} s2={g (e.mul f)} n={g e.invert} x={g (gtExp e k)} d={g (e.mul e)} seq={",".intercalate seq} mut=-"
+      | _, _ => "reject"
+    | _, _, _ => "bad-op"
   | "pair" =>
     match o.int? "a", o.int? "b" with
     | some a, some b =>
       -- bilin: the property's prediction for `e(aP, bQ) == e(P, Q)^(ab)` judged on the implementation
-      s!"{showPair (pair (g1Mul .gen a) (g2Mul .gen b))} bilin=1"
+      s!"{showPair (pair (g1Mul .gen a) (g2Mul .gen b))} bilin=1 mut=-"
     | _, _ => "bad-op"
   | "pairm" =>
     match o.hex? "g1", o.hex? "g2", o.int? "k1", o.int? "k2" with
     | some m1, some m2, some k1, some k2 =>
       match g1Unmarshal m1, g2Unmarshal m2 with
-      | some P, some Q => showPair (pair (g1Mul P k1) (g2Mul Q k2))
+      | some P, some Q => showPairM (pair (g1Mul P k1) (g2Mul Q k2))
       | _, _ => "reject"
     | _, _, _, _ => "bad-op"
   | "gt" =>
@@ -86,7 +129,7 @@ def handle (line : String) : String :=
       match gtUnmarshal me, gtUnmarshal mf with
       | some e, some f =>
         let g (x : GFp12) := toHex (gtMarshal x)
-        s!"add={g (e.mul f)} neg={g e.invert} exp={g (gtExp e k)} rt={g e} z={if (e.mul e.invert).isOne then 1 else 0}"
+        s!"add={g (e.mul f)} neg={g e.invert} exp={g (gtExp e k)} rt={g e} z={if (e.mul e.invert).isOne then 1 else 0} mut=-"
       | _, _ => "reject"
     | _, _, _ => "bad-op"
   | _ => "bad-op"
